@@ -13,8 +13,8 @@ CONSTANTS
  MaxCount = 0
  WithScan = TRUE
  AllowClose = FALSE
- Dev = {"ReadMarkSkipsZero"}
- StartTs = 1
+ Dev = {}
+ StartTs = 2
  MaxHist = 0
 VIEW view
 SYMMETRY Sym
